@@ -123,6 +123,10 @@ def run(ctx):
             ok = te is not None and b.dominates(te[0], dd[0][0]) and te[1] is not None and all_paths_err(b, te[1]) and schema_same
         ctx.ob('CHECK', nm, ok, short_loc(b.span), 'check_header(..)? succeeds before %s is called, with the same schema: %s' % (dec, ok))
     header_rule(ctx)
+    # the fingerprint stamped / verified is the one computed from the node graph at freeze; the builder type has no
+    # cached state that could go stale (shared with C08)
+    from .c08 import source
+    source(ctx)
     # fingerprint is 8 bytes
     fns = [v_ for k, v_ in f.fns.items() if strip_generics(k).endswith('Schema::rabin_fingerprint')]
     ctx.ob('PAIR', 'fingerprint-8-bytes', bool(fns) and '[u8; 8]' in fns[0].get('output', ''), None, 'rabin_fingerprint returns %s' % (fns[0].get('output') if fns else None), nontrivial=False)
